@@ -15,34 +15,60 @@ import (
 
 // Custom media types registered (once, the registry is global in the package) next to the built-in
 // application/json and application/xml.  Every writer writes its registration key as Content-Type.
-// "application/x" is a substring of "application/xml" on purpose: it exercises the map-order
-// dependent substring fallback of accessorAt.
+// Several names contain, or are contained in, other registered names, on purpose — a lookup that
+// prefers anything to the exact registration answers with another writer's Content-Type:
+// "application/x" is a substring of "application/xml" (and of "application/xml-dtd"; it exercises
+// the map-order dependent substring fallback of accessorAt), "application/json-patch+json" and
+// "application/xml-dtd" contain the built-in names, "text/csv-schema" contains the custom "text/csv".
 const (
-	VndJSON = "application/vnd.x+json"
-	VndXML  = "application/vnd.y+xml"
-	CSV     = "text/csv"
-	AppX    = "application/x"
+	VndJSON   = "application/vnd.x+json"
+	VndXML    = "application/vnd.y+xml"
+	CSV       = "text/csv"
+	AppX      = "application/x"
+	JSONPatch = "application/json-patch+json"
+	XMLDTD    = "application/xml-dtd"
+	CSVSchema = "text/csv-schema"
 )
+
+// custom registrations: key, how the body is checked, the accessor
+var customs = []struct {
+	Key, Codec string
+	Make       func() restful.EntityReaderWriter
+}{
+	{VndJSON, "json", func() restful.EntityReaderWriter { return restful.NewEntityAccessorJSON(VndJSON) }},
+	{CSV, "csv", func() restful.EntityReaderWriter { return csvAccess{CSV} }},
+	{VndXML, "xml", func() restful.EntityReaderWriter { return restful.NewEntityAccessorXML(VndXML) }},
+	{AppX, "xml", func() restful.EntityReaderWriter { return restful.NewEntityAccessorXML(AppX) }},
+	{JSONPatch, "json", func() restful.EntityReaderWriter { return restful.NewEntityAccessorJSON(JSONPatch) }},
+	{XMLDTD, "xml", func() restful.EntityReaderWriter { return restful.NewEntityAccessorXML(XMLDTD) }},
+	{CSVSchema, "csv", func() restful.EntityReaderWriter { return csvAccess{CSVSchema} }},
+}
 
 // AllMedia are the media types routes may declare in Produces; a writer is registered for each of
 // them sooner or later (the package's registry is global and can only grow).
-var AllMedia = []string{restful.MIME_JSON, restful.MIME_XML, VndJSON, VndXML, CSV, AppX}
+var AllMedia = []string{restful.MIME_JSON, restful.MIME_XML, VndJSON, VndXML, CSV, AppX, JSONPatch, XMLDTD, CSVSchema}
 
 // Registry is the key set of the global registry as the model is told: the built-in writers first,
-// the custom ones as SetupPhase registers them.
+// the custom ones in the order SetupPhase registers them.
 var Registry = []string{restful.MIME_JSON, restful.MIME_XML}
 
 // codec of each registered key: how the body is checked
-var codec = map[string]string{restful.MIME_JSON: "json", restful.MIME_XML: "xml", VndJSON: "json", VndXML: "xml", CSV: "csv", AppX: "xml"}
+var codec = map[string]string{restful.MIME_JSON: "json", restful.MIME_XML: "xml"}
+
+func init() {
+	for _, c := range customs {
+		codec[c.Key] = c.Codec
+	}
+}
 
 const csvBody = "a,n\nhello,7\n"
 
-// csvAccess is a tiny custom EntityReaderWriter.
-type csvAccess struct{}
+// csvAccess is a tiny custom EntityReaderWriter (registered under two keys, one containing the other).
+type csvAccess struct{ key string }
 
 func (csvAccess) Read(req *restful.Request, v interface{}) error { return nil }
-func (csvAccess) Write(resp *restful.Response, status int, v interface{}) error {
-	resp.Header().Set(restful.HEADER_ContentType, CSV)
+func (a csvAccess) Write(resp *restful.Response, status int, v interface{}) error {
+	resp.Header().Set(restful.HEADER_ContentType, a.key)
 	resp.WriteHeader(status)
 	_, err := resp.Write([]byte(csvBody))
 	return err
@@ -51,22 +77,53 @@ func (csvAccess) Write(resp *restful.Response, status int, v interface{}) error 
 var phaseMu sync.Mutex
 var phase int
 
+// regOrder is the order in which the custom accessors get registered (indices into customs); the
+// first half in phase 1, the rest in phase 2.  SetOrder may change it while nothing is registered.
+var regOrder = []int{0, 1, 2, 3, 4, 5, 6}
+
+// SetOrder chooses the registration order of the custom accessors (a permutation of the indices of
+// customs) — "contains" relations between keys then meet every relative order across seeds.  It
+// has no effect once a custom accessor is registered (the registry cannot forget).  Reports the
+// order in force.
+func SetOrder(perm []int) []string {
+	phaseMu.Lock()
+	defer phaseMu.Unlock()
+	if phase == 0 && len(perm) == len(customs) {
+		seen := map[int]bool{}
+		for _, i := range perm {
+			if i >= 0 && i < len(customs) {
+				seen[i] = true
+			}
+		}
+		if len(seen) == len(customs) {
+			regOrder = append([]int{}, perm...)
+		}
+	}
+	var keys []string
+	for _, i := range regOrder {
+		keys = append(keys, customs[i].Key)
+	}
+	return keys
+}
+
 // SetupPhase registers the custom accessors in two steps, so that requests are served both before
-// and after a writer for a produced type exists (phase 0: built-ins only; 1: + vnd.x+json, text/csv;
-// 2: all). Phases only go up: the registry has no way to forget a writer.
+// and after a writer for a produced type exists (phase 0: built-ins only; 1: + the first three of
+// the registration order; 2: all). Phases only go up: the registry has no way to forget a writer.
 func SetupPhase(k int) {
 	phaseMu.Lock()
 	defer phaseMu.Unlock()
+	reg := func(idx []int) {
+		for _, i := range idx {
+			restful.RegisterEntityAccessor(customs[i].Key, customs[i].Make())
+			Registry = append(Registry, customs[i].Key)
+		}
+	}
 	if k >= 1 && phase < 1 {
-		restful.RegisterEntityAccessor(VndJSON, restful.NewEntityAccessorJSON(VndJSON))
-		restful.RegisterEntityAccessor(CSV, csvAccess{})
-		Registry = append(Registry, VndJSON, CSV)
+		reg(regOrder[:3])
 		phase = 1
 	}
 	if k >= 2 && phase < 2 {
-		restful.RegisterEntityAccessor(VndXML, restful.NewEntityAccessorXML(VndXML))
-		restful.RegisterEntityAccessor(AppX, restful.NewEntityAccessorXML(AppX))
-		Registry = append(Registry, VndXML, AppX)
+		reg(regOrder[3:])
 		phase = 2
 	}
 }
@@ -124,10 +181,34 @@ func Execute(c *Case, accept string, n int) (out []Obs) {
 		}
 		ws := new(restful.WebService)
 		ws.Path("/w")
-		ws.Route(ws.GET("/x").Produces(c.Produces...).To(func(req *restful.Request, resp *restful.Response) {
+		preset := func(req *restful.Request, resp *restful.Response, chain *restful.FilterChain) {
+			resp.Header().Set(restful.HEADER_ContentType, c.Preset) // "a default Content-Type for every response"
+			chain.ProcessFilter(req, resp)
+		}
+		if c.Preset != "" {
+			switch c.PresetBy {
+			case "container-filter":
+				cont.Filter(preset)
+			case "webservice-filter":
+				ws.Filter(preset)
+			}
+		}
+		rb := ws.GET("/x").Produces(c.Produces...)
+		if c.Preset != "" && c.PresetBy == "route-filter" {
+			rb = rb.Filter(preset)
+		}
+		ws.Route(rb.To(func(req *restful.Request, resp *restful.Response) {
 			ran = true
 			if c.Compact {
 				resp.PrettyPrint(false)
+			}
+			if c.Preset != "" {
+				switch c.PresetBy {
+				case "handler-AddHeader":
+					resp.AddHeader(restful.HEADER_ContentType, c.Preset)
+				case "handler-Header().Set":
+					resp.Header().Set(restful.HEADER_ContentType, c.Preset)
+				}
 			}
 			resp.WriteEntity(theEntity)
 		}))
@@ -162,6 +243,9 @@ func one(cont *restful.Container, c *Case, accept string, ran *bool) (o Obs) {
 	*ran = false
 	cont.Dispatch(rec, req)
 	ct := rec.Result().Header.Get("Content-Type") // as sent: a header set after WriteHeader never reaches the client
+	if vs := rec.Result().Header.Values("Content-Type"); len(vs) > 1 {
+		return Obs{Kind: "other", Detail: fmt.Sprintf("status %d with %d Content-Type header lines %q", rec.Code, len(vs), vs)}
+	}
 	switch {
 	case rec.Code == http.StatusNotAcceptable && !*ran:
 		return Obs{Kind: "r406"}
